@@ -30,4 +30,8 @@ def unitBytesClass (s : String) : String × String :=
   | .err c => ("err", c)
   | .unmodelled _ => ("unmodelled", "")
 
+/-- a decimal numeral as every reader agrees on it: digits only, no leading zero (or `0` itself) -/
+def CanonicalDecimal (ds : List Char) : Prop :=
+  allDigits ds = true ∧ ∃ c cs, ds = c :: cs ∧ (c = '0' → cs = [])
+
 end CV.Interp
